@@ -88,3 +88,51 @@ Proof.
   assert (B : forall o : option time, In x (match o with Some h => [h] | None => [] end) <-> In x (opt_list o)) by (intros [h|]; reflexivity).
   rewrite (B (tmin (nexts (s i)))), (B (cur (s i))). tauto.
 Qed.
+
+(* ---- wait_for_dependencies / Progress: the guard of a BEGIN ---- *)
+Lemma zadd_zeros p : zadd p (repeat 0 (length p)) = p.
+Proof. induction p as [|x p IH]; simpl; [reflexivity|]. rewrite Z.add_0_r, IH. reflexivity. Qed.
+Lemma firstn_repeat {A} (x:A) n : firstn n (repeat x n) = repeat x n.
+Proof. induction n; simpl; [reflexivity|rewrite IHn; reflexivity]. Qed.
+Lemma skipn_repeat {A} (x:A) n : skipn n (repeat x n) = [].
+Proof. induction n; simpl; [reflexivity|exact IHn]. Qed.
+Lemma act_zero p : act p (zero_interval (length p)) = p.
+Proof. unfold act, zero_interval. simpl. rewrite firstn_repeat, skipn_repeat, zadd_zeros, app_nil_r. reflexivity. Qed.
+Lemma tgt_tlt a b : tgt a b = tlt b a.
+Proof.
+  unfold tgt. destruct (tlt_trichotomy a b) as [H|[->|H]].
+  - rewrite H. simpl. symmetry. apply tlt_asym. exact H.
+  - rewrite tlt_irrefl. simpl. destruct (teq b b) eqn:E; [reflexivity|]. exfalso. assert (teq b b = true) by (apply teq_eq; reflexivity). congruence.
+  - rewrite H, (tlt_asym _ _ H). simpl. destruct (teq a b) eqn:E; [|reflexivity]. apply teq_eq in E. subst. rewrite tlt_irrefl in H. discriminate.
+Qed.
+
+Lemma has_passed_ready p t d : progress_has_passed_ready p t (Some d) = tlt t (act p d).
+Proof. unfold progress_has_passed_ready, progress_add_trigger_ready, progress_triggered_time. simpl. rewrite tgt_tlt. destruct (tlt t (act p d)); reflexivity. Qed.
+Lemma has_reached_ready p t : progress_has_reached_ready p t None = tle t p.
+Proof. unfold progress_has_reached_ready, progress_add_trigger_ready, progress_triggered_time. rewrite act_zero. simpl. unfold tge, tle. destruct (tlt p t); reflexivity. Qed.
+
+Lemma forallb_id_map {A} (f : A -> bool) l : forallb (fun b : bool => b) (map f l) = forallb f l.
+Proof. induction l as [|x l IH]; simpl; [reflexivity|rewrite IH; reflexivity]. Qed.
+
+Lemma forallb_map' {A B} (f : B -> bool) (g : A -> B) l : forallb f (map g l) = forallb (fun x => f (g x)) l.
+Proof. induction l as [|x l IH]; simpl; [reflexivity|rewrite IH; reflexivity]. Qed.
+
+Lemma forallb_ext' {A} (f g : A -> bool) l : (forall x, f x = g x) -> forallb f l = forallb g l.
+Proof. intros H. induction l as [|x l IH]; simpl; [reflexivity|rewrite H, IH; reflexivity]. Qed.
+
+Definition pview (s:state) (l : list (nat * interval)) : list (time * interval) := map (fun kd : nat * interval => (prog (s (fst kd)), snd kd)) l.
+
+(* the three groups of awaited conditions of wait_for_dependencies (regenerated from the source, with Progress._triggered_time)
+   are all fulfilled exactly when the model's guard deps_ok holds *)
+Theorem tie_wait_for_dependencies st s i t :
+  wait_for_dependencies_ready (pview s (indel st i)) (pview s (succ_wait st i)) (pview s (succ_lazy st i)) (lazy st) t = deps_ok st s i t.
+Proof.
+  unfold wait_for_dependencies_ready, deps_ok, pview. rewrite !forallb_app, !forallb_id_map, !forallb_map'.
+  assert (A : forall l, forallb (fun x : nat * interval => let (pre_sim, delay) := (prog (s (fst x)), snd x) in progress_has_passed_ready pre_sim t (Some delay)) l =
+                        forallb (fun kd : nat * interval => let (k, d) := kd in tlt t (act (prog (s k)) d)) l).
+  { intros l. apply forallb_ext'. intros [k d]. simpl. apply has_passed_ready. }
+  assert (B : forall l, forallb (fun x : nat * interval => let (suc_sim, adapt) := (prog (s (fst x)), snd x) in progress_has_reached_ready suc_sim (act t adapt) None) l =
+                        forallb (fun jd : nat * interval => let (j, d) := jd in tle (act t d) (prog (s j))) l).
+  { intros l. apply forallb_ext'. intros [k d]. simpl. apply has_reached_ready. }
+  rewrite A, B. destruct (lazy st); [rewrite forallb_id_map, forallb_map', B|simpl]; rewrite ?andb_true_r, ?andb_assoc; reflexivity.
+Qed.
